@@ -538,8 +538,69 @@ def check_subprocess(case, ctx):
     return check(case, ctx, subprocess_mode=True)
 
 
+LARGE_RECORD_SIZES = [2**16 + 7, 2**20 + 100, 2**22 + 1, 2**24 + 100]
+
+
+def large_cases(tier):
+    return [{"size": n, "gz": gz, "opts": o} for n in LARGE_RECORD_SIZES for gz in (False, True)
+            for o in ([], ["-n", "-s", "r.n >= 0"], ["--skip", "1"], ["-w-json"])]
+
+
+def check_large_identity(case, ctx):
+    """'With no options it is the identity' has no size clause: a good source holding one record of many megabytes
+    contributes that record and the records behind it like any other source."""
+    from flow.record import RecordDescriptor, RecordReader, RecordWriter
+
+    n = case["size"]
+    ctx.nontriv()
+    ctx.cls("record-bytes:%d" % n, "gz:%s" % case["gz"], "opts:%s" % " ".join(case["opts"]))
+    desc = RecordDescriptor("c16/large", [("string", "s"), ("varint", "n")])
+    tmp = ctx.fresh_dir()
+    try:
+        srcs = []
+        k = 0
+        for i, payloads in enumerate((["a"], ["b", "x" * n, "c", "d"], ["e"])):
+            p = os.path.join(tmp, "in%d.records%s" % (i, ".gz" if case["gz"] else ""))
+            w = RecordWriter(p)
+            for s_ in payloads:
+                w.write(desc(s_, k, _generated=GEN))
+                k += 1
+            w.flush()
+            w.close()
+            srcs.append(p)
+        want = list(range(k))
+        opts = list(case["opts"])
+        as_json = "-w-json" in opts
+        if as_json:
+            opts.remove("-w-json")
+        outp = os.path.join(tmp, "out.json" if as_json else "out.records")
+        if "--skip" in opts:
+            want = want[1:]
+        res = impl(run_rdump_inprocess, srcs + opts + ["-w", outp])
+        if not res.ok:
+            raise Violation("rdump/large/raised", "rdump %r raised %r" % (opts, res), detail=res.type)
+
+        def rd():
+            r = RecordReader(outp)
+            try:
+                return [(int(x.n), len(x.s)) for x in r]
+            finally:
+                r.close()
+
+        got = impl(rd)
+        if not got.ok:
+            raise Violation("rdump/large/output-unreadable", "%r" % (got,))
+        lens = {0: 1, 1: 1, 2: n, 3: 1, 4: 1, 5: 1}
+        if got.value != [(i, lens[i]) for i in want]:
+            raise Violation("rdump/large/records-differ", "a source with one %d-byte record: wrote (n, len) %r, expected n = %r"
+                            % (n, got.value, want))
+    finally:
+        shutil.rmtree(tmp, ignore_errors=True)
+
+
 def parts(tier):
     return [
         Part("in-process", check, strategy=case_strategy(), examples=(300, 4000)),
+        Part("large-records", check_large_identity, cases=large_cases, exhaustive=True),
         Part("subprocess", check_subprocess, strategy=case_strategy(), examples=(6, 60)),
     ]
